@@ -1263,6 +1263,53 @@ class Interp:
         if not broke:
             self.exec_block(st.orelse, frame)
 
+    def for_invariant_for(self, st, frame):
+        invs = self.P.ghost.get("loop_invariants")
+        if not invs or frame.fi is None:
+            return None
+        fors = [n for n in ast.walk(frame.fi.node) if isinstance(n, ast.For)]
+        fors.sort(key=lambda n: (n.lineno, n.col_offset))
+        k = fors.index(st) if st in fors else None
+        return invs.get((frame.fi.fq, "for", k))
+
+    def for_with_invariant(self, st, frame, spec, it):
+        """loop rule 4 for `for x in <iterator over a sequence of unknown length>`: the invariant (over
+        the loop variables and the iterator position) holds on entry, is preserved by an arbitrary
+        iteration that ends normally or with `continue`, and is assumed with position == length after
+        exhaustion.  An iteration that leaves through break / return / raise is a real exit of the
+        loop, reached from a state satisfying the invariant."""
+        from .engine import Obligation, discharge, Infeasible, BoolS
+
+        P = self.P
+        name = "loop[%s@L%d]" % (frame.fi.fq.split(":")[1], st.lineno)
+        entry = spec.enter(self, frame, it)
+        ob = Obligation("inv_init[%s]" % name, spec.props, "loop")
+        discharge(P, to_z3b(spec.inv(self, frame, it, entry)), ob)
+        P.obligs.append(ob)
+        step = P.fresh("in_arbitrary_iteration", BoolS)
+        n = it.seq.n
+        if P.branch(step):
+            spec.havoc(self, frame, it)
+            P.assume(to_z3b(spec.inv(self, frame, it, entry, assume=True)), "loop:invariant before an arbitrary iteration")
+            P.assume(z3.And(it.pos >= 0, it.pos < n), "loop:an element is left")
+            x = it.seq.at(it.pos)
+            it.pos = it.pos + 1
+            self.assign(st.target, x, frame)
+            try:
+                self.exec_block(st.body, frame)
+            except _Continue:
+                pass
+            except _Break:
+                return  # leaves the loop (no else clause); execution continues after it
+            ob2 = Obligation("inv_step[%s]" % name, spec.props, "loop")
+            discharge(P, to_z3b(spec.inv(self, frame, it, entry)), ob2)
+            P.stats.setdefault("side_obligs", []).append(ob2)
+            raise Infeasible()
+        spec.havoc(self, frame, it)
+        P.assume(to_z3b(spec.inv(self, frame, it, entry, assume=True)), "loop:invariant at exhaustion")
+        P.assume(it.pos == n, "loop:iterator exhausted")
+        self.exec_block(st.orelse, frame)
+
     def loop_invariant_for(self, st, frame):
         """sidecar loop invariant keyed by (function, ordinal of the while loop inside it)"""
         invs = self.P.ghost.get("loop_invariants")
@@ -1307,6 +1354,14 @@ class Interp:
 
     def st_For(self, st, frame):
         it = self.eval(st.iter, frame)
+        spec = self.for_invariant_for(st, frame)
+        if spec is not None:
+            from .symseq import SymSeq, SymIter
+
+            if isinstance(it, SymSeq):
+                it = SymIter(it)
+            if isinstance(it, SymIter):
+                return self.for_with_invariant(st, frame, spec, it)
         hook = self.P.ghost.get("for_hook")
         if hook is not None:
             r = hook(self, st, it, frame)
